@@ -42,6 +42,7 @@ def main():
     codes = G.code_strings(T, exhaustive3=True)
     terrs = G.territory_strings(T)
     lang_names = G.name_variants(rng, T, (20000 if big else 3000) * boost)
+    munch_in = G.munch_strings(rng, T, (20000 if big else 3000) * boost)
     cli_values = G.BOUNDARY + G.locale_strings(rng, (3000 if big else 500) * boost, T, None)
     paths = G.PATHS + G.GATED_PATHS + ['', '.', '..', '/', '//', '///', 'a/b/../../..', '/..', 'a//b/./c/', './', '../a', 'a/..', '//a/../..']
     paths += [rng.choice(['', '/', '//', './', '../']) + '/'.join(rng.choice(['a', '.', '..', '', 'pl', 'LC_MESSAGES', 'x.po', '.po', 'b.c'])
@@ -68,9 +69,8 @@ def main():
         chk.note_cases({o for o in outs if o.startswith('ok')})
         stream('locale-lookup', 'lookup', codes, C.impl_lookup)
         stream('locale-territory', 'territory', terrs, C.impl_territory)
-        lines = ['locale name ' + C.hexs(C.ref_munch(x)) for x in lang_names]
-        outs = [C.impl_name(x) for x in lang_names]
-        chk.stream('locale-name', lines, outs)
+        stream('locale-munch', 'munch', munch_in, C.impl_munch)
+        stream('locale-name', 'name-raw', lang_names + munch_in[:1000], C.impl_name)
         dis_cli, _ = stream('locale-cli', 'cli', cli_values, C.impl_cli)
         stream('locale-normpath', 'normpath', [p for p in paths if '\x00' not in p], C.impl_normpath)
         stream('locale-splitext', 'splitext', paths, C.impl_splitext)
@@ -117,6 +117,7 @@ def main():
         return False
     (sweep(dis_parse + names_in + small, C.prop_parse)
         or sweep(dis_fix + [s for s in names_in if C.ref_parse(s) is not None], C.prop_fix)
+        or sweep(munch_in, C.prop_munch)
         or sweep(lang_names, C.prop_name)
         or sweep(dis_cli + cli_values, C.prop_cli)
         or sweep(dis_cases + cases, C.prop_check))
